@@ -98,6 +98,14 @@ def run(ctx):
                     if not (isinstance(r, Ref) and (r.name.startswith("operator.") or r.name == "builtins.isinstance")):
                         bad.append(norm(c.func))
                 ctx.check(not bad, "R9.1", f"{tname}[{kn}]", f"lambda calls {bad}", v.node, "lambda applies only isinstance/operator.*")
+            elif isinstance(v, DefRef) and isinstance(v.node, ast.FunctionDef):
+                inner = [c for c in ast.walk(v.node) if isinstance(c, ast.Call)]
+                bad = []
+                for c in inner:
+                    r = prog.resolve_expr(sel, c.func)
+                    if not (isinstance(r, Ref) and (r.name.startswith("operator.") or r.name == "builtins.isinstance")):
+                        bad.append(norm(c.func))
+                ctx.check(not bad, "R9.1", f"{tname}[{kn}]", f"comparator function calls {bad}", v.node, "function applies only isinstance/operator.*")
             else:
                 ctx.fail("R9.1", f"{tname}[{kn}]", f"table entry {v!r} is not an operator function or reviewed lambda", None)
 
@@ -113,27 +121,54 @@ def run(ctx):
     ctx.check(isinstance(func_src, ast.Call) and norm(func_src.func) in ("self.eval", "self._eval") and norm(func_src.args[0]) == f"{p_node}.func",
               "R9.2", "_eval:Call:callee", f"the invoked object is {norm(func_src) if func_src is not None else None}, not eval(node.func)", call_site,
               "callee = self.eval(node.func)")
-    # the predicate: an `if not (...): raise` that dominates the call and mentions a variable assigned from resolve_attr_path(node)
-    pred_if = None
-    name_var = None
+    # the name string(s): variables assigned (directly or through plain copies) from resolve_attr_path(node)
+    from ..logic import atoms as _atoms, formula as _formula, reachable_assuming
+
+    name_vars = set()
     for st in walk_no_nested(ev_fn):
         if isinstance(st, ast.Assign) and isinstance(st.value, ast.Call):
             r = prog.resolve_expr(sel, st.value.func)
             if isinstance(r, DefRef) and r.qualname.endswith("resolve_attr_path") and isinstance(st.targets[0], ast.Name):
-                name_var = st.targets[0].id
-    if name_var is None:
+                name_vars.add(st.targets[0].id)
+    changed = True
+    while changed:
+        changed = False
+        for st in walk_no_nested(ev_fn):
+            if isinstance(st, ast.Assign) and isinstance(st.value, ast.Name) and st.value.id in name_vars and isinstance(st.targets[0], ast.Name) \
+                    and st.targets[0].id not in name_vars:
+                name_vars.add(st.targets[0].id)
+                changed = True
+    if not name_vars:
         raise AnalysisError("R9.2: no variable is assigned from resolve_attr_path(node) in _eval")
-    for st in walk_no_nested(ev_fn):
-        if isinstance(st, ast.If) and isinstance(st.test, ast.UnaryOp) and isinstance(st.test.op, ast.Not) \
-                and any(isinstance(n, ast.Name) and n.id == name_var for n in ast.walk(st.test)) and all_paths_raise(cfg, st.body):
-            pred_if = st
-    if pred_if is None:
-        ctx.fail("R9.2", "_eval:Call:predicate", "no `if not <predicate(func_name)>: raise` guards the call", call_site,
-                 key="R9.2:_eval:Call:no-predicate")
-        raise AnalysisError("R9.2: call predicate not found; remaining C09 rules cannot be evaluated")
-    pred_node = cfg.node_of(pred_if)
-    ctx.check(cfg.dominates(pred_node.id, call_node.id), "R9.2", "_eval:Call:predicate-dominates",
-              "the whitelist predicate does not dominate the call", call_site, "predicate-or-raise dominates func(*args, **kwargs)")
+    call_branch_if = next((st for st in walk_no_nested(ev_fn) if isinstance(st, ast.If) and isinstance(st.test, ast.Call)
+                           and call_name(st.test) == "isinstance" and norm(st.test.args[1]) == "ast.Call"), None)
+    if call_branch_if is None:
+        raise AnalysisError("R9.2: Call branch of _eval not found")
+    branch_nodes = {id(n) for s0 in call_branch_if.body for n in ast.walk(s0)}
+    # vetting atoms: atomic conditions of tests inside the Call branch that mention a name variable
+    vet_atoms = {}
+    for st in [x for s0 in call_branch_if.body for x in ast.walk(s0) if isinstance(x, ast.If)]:
+        for a in _atoms(_formula(st.test)):
+            try:
+                ae = ast.parse(a, mode="eval").body
+            except SyntaxError:
+                continue
+            if any(isinstance(n, ast.Name) and n.id in name_vars for n in ast.walk(ae)):
+                vet_atoms[a] = ae
+    ctx.floor("R9.2", "vetting conditions on the resolved call name", len(vet_atoms), 1)
+    first_node = cfg.node_of(call_branch_if.body[0])
+    reach = reachable_assuming(cfg, first_node.id, lambda a: False if a in vet_atoms else None)
+    ctx.check(call_node.id not in reach, "R9.2", "_eval:Call:vetted-before-call",
+              "the arbitrary call is reachable on a path where none of the whitelist tests on the call name succeeded", call_site,
+              f"call unreachable unless one of {sorted(vet_atoms)} holds", key="R9.2:_eval:Call:reachable-unvetted")
+    ctx.sample({"rule": "R9.2", "vetting_atoms": sorted(vet_atoms)})
+
+    class _Pred:  # the rest of the rules only need the text / node of the vetting tests
+        pass
+
+    pred_if = _Pred()
+    pred_if.test = ast.BoolOp(op=ast.Or(), values=list(vet_atoms.values())) if len(vet_atoms) > 1 else next(iter(vet_atoms.values()))
+    pred_anchor = call_site
     rap = ctx.anchor_func("flow.record.selector.resolve_attr_path")
     rcfg = CFG(rap)
     rets = [n for n in rcfg.stmt_nodes() if isinstance(n.ast, ast.Return)]
@@ -147,10 +182,16 @@ def run(ctx):
                   "every return is reached only when the root of the chain is an ast.Name", key="R9.2:resolve_attr_path:non-name-root")
     # exactness: every Attribute link contributes its attr, the root contributes its id
     txt = {norm(n) for n in ast.walk(rap)}
-    has_attr = any(isinstance(c, ast.Call) and isinstance(c.func, ast.Attribute) and c.func.attr == "append" and c.args and
-                   isinstance(c.args[0], ast.Attribute) and c.args[0].attr == "attr" for c in ast.walk(rap))
-    has_id = any(isinstance(c, ast.Call) and isinstance(c.func, ast.Attribute) and c.func.attr == "append" and c.args and
-                 isinstance(c.args[0], ast.Attribute) and c.args[0].attr == "id" for c in ast.walk(rap))
+    def recorded(attr):
+        for c in ast.walk(rap):
+            if isinstance(c, ast.Call) and isinstance(c.func, ast.Attribute) and c.func.attr in ("append", "insert", "appendleft", "extend") and \
+                    any(isinstance(a, ast.Attribute) and a.attr == attr for x in c.args for a in ast.walk(x)):
+                return True
+            if isinstance(c, (ast.BinOp, ast.JoinedStr, ast.AugAssign)) and any(isinstance(a, ast.Attribute) and a.attr == attr for a in ast.walk(c)):
+                return True
+        return False
+
+    has_attr, has_id = recorded("attr"), recorded("id")
     loops = [n for n in ast.walk(rap) if isinstance(n, ast.While)]
     ctx.check(has_attr and has_id and loops, "R9.2", "resolve_attr_path:exact", "the resolved path does not contain every link of the chain",
               rap, "path = root id + every .attr of the chain")
@@ -180,7 +221,7 @@ def run(ctx):
     clash = sorted(pred_containers & set(b_containers))
     ctx.check(not clash, "R9.3", "_eval:Call:predicate-containers",
               f"the call predicate consults {clash}, which generator variables are stored into: `any(f() for f in [r.s.upper])` binds an "
-              "arbitrary bound method to a name that then passes the predicate", pred_if,
+              "arbitrary bound method to a name that then passes the predicate", pred_anchor,
               f"predicate reads {sorted(pred_containers) or ['(module constants only)']}; expression-driven stores go to {sorted(b_containers)}",
               key="R9.3:predicate-reads-bindable-namespace")
     # containers read by the predicate must be assigned only in matches()/__init__ and not mutated elsewhere
@@ -292,11 +333,13 @@ def run(ctx):
             scfg = CFG(scope_fn)
             node = scfg.node_of(c)
             facts = {(t, p) for t, p, _ in scfg.facts_at(node.id)}
-            na = norm(name_arg)
-            refused = any((not p) and t.replace('"', "'") in (f"{na}.startswith('__')", f"{na}.startswith('_')",
-                                                                   f"str({na}).startswith('__')", f"str({na}).startswith('_')")
-                          for t, p in facts)
-            kind = classify_name(prog, sel, scope_fn, name_arg, p_node, helper_names)
+            from ..core import expand_aliases, single_assign_aliases
+
+            al = single_assign_aliases(scope_fn)
+            name_x = expand_aliases(name_arg, al)
+            na = norm(name_x)
+            refused = refusal_holds(prog, scope_fn._module, facts, al, na)
+            kind = classify_name(prog, sel, scope_fn, name_x, p_node, helper_names)
             if kind == "descriptor-field":
                 ctx.ok("R9.4", construct, "NAME is a field name taken from the record's descriptor (validated identifiers, never '_'-prefixed)", c)
             elif kind == "matcher-attrs":
@@ -427,16 +470,62 @@ def loop_source(fn, var):
     return None
 
 
+def refusal_holds(prog, module, facts, aliases, name_text) -> bool:
+    """Some fact says `<X>.startswith(<C>)` is False with X == NAME or str(NAME) (after alias expansion) and C folding to '_' / '__'."""
+    from ..core import expand_aliases
+
+    for t, pol in facts:
+        if pol:
+            continue
+        try:
+            e = ast.parse(t, mode="eval").body
+        except SyntaxError:
+            continue
+        if not (isinstance(e, ast.Call) and isinstance(e.func, ast.Attribute) and e.func.attr == "startswith" and len(e.args) == 1):
+            continue
+        recv = expand_aliases(e.func.value, aliases)
+        rt = norm(recv)
+        if rt not in (name_text, f"str({name_text})"):
+            continue
+        try:
+            c = prog.fold(module, e.args[0])
+        except NotConst:
+            continue
+        if c in ("_", "__"):
+            return True
+    return False
+
+
 def attrs_guarded(prog) -> bool:
+    """Every TypeMatcherInstance built in __getattr__ with an extended attribute chain is built only when the new name does not
+    start with an underscore."""
+    from ..core import expand_aliases, single_assign_aliases
+
     ga = prog.func("flow.record.selector.TypeMatcherInstance.__getattr__")
     cfg = CFG(ga)
     p = func_params(ga)[1]
+    al = single_assign_aliases(ga)
     ok = True
     found = False
-    for n in ast.walk(ga):
-        if isinstance(n, ast.Assign) and any(isinstance(t, ast.Name) and t.id == "attrs" for t in n.targets):
-            found = True
-            node = cfg.node_of(n)
-            facts = {(t.replace('"', "'"), pol) for t, pol, _ in cfg.facts_at(node.id)}
-            ok &= (f"{p}.startswith('_')", False) in facts or (f"{p}.startswith('__')", False) in facts
+    for c in calls_in(ga):
+        r = prog.resolve_expr(ga._module, c.func)
+        if not (isinstance(r, DefRef) and r.qualname.endswith("TypeMatcherInstance")):
+            continue
+        third = c.args[2] if len(c.args) > 2 else get_kw_local(c, "attrs")
+        if third is None:
+            continue
+        x = expand_aliases(third, al)
+        if not any(isinstance(n, ast.Name) and n.id == p for n in ast.walk(x)):
+            continue
+        found = True
+        node = cfg.node_of(c)
+        facts = {(t, pol) for t, pol, _ in cfg.facts_at(node.id)}
+        ok &= refusal_holds(prog, ga._module, facts, al, p)
     return ok and found
+
+
+def get_kw_local(call, name):
+    for k in call.keywords:
+        if k.arg == name:
+            return k.value
+    return None
